@@ -92,17 +92,25 @@ theorem percolator_atomicity (T : Nat) (p : Bytes) (cs : List Cmd) (hok : OkAll 
     fun k1 k2 C1 C2 h1 h2 => ha.one_commit_ts (hr.uniq p) k1 k2 C1 C2 h1 h2⟩
 
 /-- non-vacuity: prewrite of two keys, commit of the primary, commit of the secondary obey the discipline -/
-def demoRun : List Cmd :=
-  [Cmd.prewrite { mutations := [⟨.put, [0x61], [1], .none⟩, ⟨.put, [0x62], [2], .none⟩], primary := [0x61],
-                  startTS := 10, ttl := 3000 },
-   Cmd.commit [[0x61]] 10 20, Cmd.commit [[0x62]] 10 20]
+def demoPrewrite : Cmd :=
+  Cmd.prewrite { mutations := [⟨.put, [0x61], [1], .none⟩, ⟨.put, [0x62], [2], .none⟩], primary := [0x61],
+                 startTS := 10, ttl := 3000 }
+def demoRun : List Cmd := [demoPrewrite, Cmd.commit [[0x61]] 10 20, Cmd.commit [[0x62]] 10 20]
 
-example : OkAll {} demoRun := by simp [OkAll, Cmd.Ok, demoRun]
+example : OkAll {} demoRun := by simp [OkAll, Cmd.Ok, demoRun, demoPrewrite]
 
 example : DiscAll 10 [0x61] {} demoRun := by
   refine ⟨trivial, ?_, ?_, ?_, ?_, ?_, trivial⟩
   · rintro lab (rfl | rfl) <;> simp [KLabel.txn, KLabel.keepsTxn, KLabel.keepsRecord]
-  · intro _; right; exact ⟨by simp, _, rfl, rfl, by decide⟩
+  · intro _; right
+    refine ⟨by simp, ?_, ?_⟩
+    · intro l hl _
+      have h0 : (getEntry (Cmd.run {} demoPrewrite).kv [0x61]).lock = some ⟨10, [0x61], [1], .put, 3000, 0, 0, 0⟩ := by decide
+      have : l = ⟨10, [0x61], [1], .put, 3000, 0, 0, 0⟩ := Option.some.inj (hl.symm.trans h0)
+      subst this; decide
+    · rintro C' ⟨w, hw, _⟩
+      have h0 : (getEntry (Cmd.run {} demoPrewrite).kv [0x61]).writes = [] := by decide
+      rw [h0] at hw; cases hw
   · rintro lab (rfl | ⟨_, rfl⟩) <;> simp [KLabel.txn, KLabel.keepsTxn, KLabel.keepsRecord]
   · intro _; left; exact ⟨⟨.put, 10, 20, [1]⟩, by decide, rfl, by decide, rfl⟩
   · rintro lab (rfl | ⟨_, rfl⟩) <;> simp [KLabel.txn, KLabel.keepsTxn, KLabel.keepsRecord]
